@@ -118,8 +118,28 @@ pub const RELAXATIONS: &[(&str, &str)] = &[
   ("c03:control_chars_in_text", "SCHAR =/ %x00-1F / %x7F-9F\nBCHAR =/ %x00-09 / %x0B-1F / %x7F-9F\nPCHAR =/ %x00-09 / %x0B-0C / %x0E-1F / %x7F-9F\n"),
 ];
 
+/// Open finding C03-F12: the type inside `#6.<...>` / `#7.<...>` is kept as raw text and its text literals are
+/// never checked, so escapes that RFC 9682 excludes (lone surrogates, \u{110000}) are accepted there. Added to the
+/// relaxed oracle only for texts that contain ".<".
+pub const UNCHECKED_ESCAPES: (&str, &str) = (
+  "c03:unchecked_text_in_tag_head_type",
+  "SESC =/ \"\\\" %s\"u\" 4HEXDIG / \"\\\" %s\"u\" \"{\" 1*HEXDIG \"}\"\n",
+);
+
 pub fn grammar() -> Grammar {
   Grammar::from_abnf(&format!("{}\n{}", RFC_ABNF, CRATE_ADDITIONS))
+}
+
+/// `grammar_with` plus the escape relaxation of C03-F12
+pub fn grammar_with_unchecked_escapes(active: &dyn Fn(&str) -> bool) -> Grammar {
+  let mut t = format!("{}\n{}", RFC_ABNF, CRATE_ADDITIONS);
+  for (name, add) in RELAXATIONS {
+    if active(name) {
+      t.push_str(add);
+    }
+  }
+  t.push_str(UNCHECKED_ESCAPES.1);
+  Grammar::from_abnf(&t)
 }
 
 /// the oracle with the relaxations whose names `active` accepts
